@@ -4,7 +4,7 @@
 From Coq Require Import List NArith ZArith Bool Lia.
 From Coq.Strings Require Import Byte String.
 From RDPGW Require Import Lib.Bytes Gen.Consts Model.Policy Model.Token Model.Download Model.Oidc
-  Spec.HostPolicy Proofs.PolicyFacts Proofs.TokenFacts Proofs.DownloadFacts Proofs.OidcFacts.
+  Spec.HostPolicy Proofs.PolicyFacts Proofs.TokenFacts Proofs.DownloadFacts Proofs.OidcFacts Gen.Facts.
 Import ListNotations.
 Open Scope Z_scope.
 
@@ -98,3 +98,66 @@ Example C12_example :
   | _ => False
   end.
 Proof. vm_compute. repeat split. Qed.
+
+(** The decisions of the transcribed functions, as the source has them now (regenerated by the
+    translator: conditions, case labels, returns, branches, go and defer statements in source order).
+    The model is a transcription of exactly this text. *)
+Theorem C12_decisions_as_transcribed :
+  DECISIONS_getHost =
+    [[x73; x77; x69; x74; x63; x68; x20; x68; x2e; x68; x6f; x73; x74; x53; x65; x6c; x65; x63; x74; x69; x6f; x6e] (* switch h.hostSelection *);
+     [x63; x61; x73; x65; x20; x22; x72; x6f; x75; x6e; x64; x72; x6f; x62; x69; x6e; x22] (* case "roundrobin" *);
+     [x72; x65; x74; x75; x72; x6e; x20; x68; x2e; x73; x65; x6c; x65; x63; x74; x52; x61; x6e; x64; x6f; x6d; x48; x6f; x73; x74; x28; x29; x2c; x6e; x69; x6c] (* return h.selectRandomHost(),nil *);
+     [x63; x61; x73; x65; x20; x22; x73; x69; x67; x6e; x65; x64; x22] (* case "signed" *);
+     [x69; x66; x20; x21; x6f; x6b] (* if !ok *);
+     [x72; x65; x74; x75; x72; x6e; x20; x22; x22; x2c; x65; x72; x72; x6f; x72; x73; x2e; x4e; x65; x77; x28; x22; x69; x6e; x76; x61; x6c; x69; x64; x20; x71; x75; x65; x72; x79; x20; x70; x61; x72; x61; x6d; x65; x74; x65; x72; x22; x29] (* return "",errors.New("invalid query parameter") *);
+     [x69; x66; x20; x65; x72; x72; x21; x3d; x6e; x69; x6c] (* if err!=nil *);
+     [x72; x65; x74; x75; x72; x6e; x20; x22; x22; x2c; x65; x72; x72] (* return "",err *);
+     [x69; x66; x20; x63; x68; x65; x63; x6b; x3d; x3d; x68; x6f; x73; x74] (* if check==host *);
+     [x62; x72; x65; x61; x6b] (* break *);
+     [x69; x66; x20; x21; x66; x6f; x75; x6e; x64] (* if !found *);
+     [x72; x65; x74; x75; x72; x6e; x20; x22; x22; x2c; x65; x72; x72; x6f; x72; x73; x2e; x4e; x65; x77; x28; x22; x69; x6e; x76; x61; x6c; x69; x64; x20; x68; x6f; x73; x74; x20; x73; x70; x65; x63; x69; x66; x69; x65; x64; x20; x69; x6e; x20; x71; x75; x65; x72; x79; x20; x74; x6f; x6b; x65; x6e; x22; x29] (* return "",errors.New("invalid host specified in query token") *);
+     [x72; x65; x74; x75; x72; x6e; x20; x68; x6f; x73; x74; x2c; x6e; x69; x6c] (* return host,nil *);
+     [x63; x61; x73; x65; x20; x22; x75; x6e; x73; x69; x67; x6e; x65; x64; x22] (* case "unsigned" *);
+     [x69; x66; x20; x21; x6f; x6b] (* if !ok *);
+     [x72; x65; x74; x75; x72; x6e; x20; x22; x22; x2c; x65; x72; x72; x6f; x72; x73; x2e; x4e; x65; x77; x28; x22; x69; x6e; x76; x61; x6c; x69; x64; x20; x71; x75; x65; x72; x79; x20; x70; x61; x72; x61; x6d; x65; x74; x65; x72; x22; x29] (* return "",errors.New("invalid query parameter") *);
+     [x69; x66; x20; x63; x68; x65; x63; x6b; x3d; x3d; x68; x6f; x73; x74; x73; x5b; x30; x5d] (* if check==hosts[0] *);
+     [x72; x65; x74; x75; x72; x6e; x20; x68; x6f; x73; x74; x73; x5b; x30; x5d; x2c; x6e; x69; x6c] (* return hosts[0],nil *);
+     [x72; x65; x74; x75; x72; x6e; x20; x22; x22; x2c; x65; x72; x72; x6f; x72; x73; x2e; x4e; x65; x77; x28; x22; x69; x6e; x76; x61; x6c; x69; x64; x20; x68; x6f; x73; x74; x20; x73; x70; x65; x63; x69; x66; x69; x65; x64; x20; x69; x6e; x20; x71; x75; x65; x72; x79; x20; x70; x61; x72; x61; x6d; x65; x74; x65; x72; x22; x29] (* return "",errors.New("invalid host specified in query parameter") *);
+     [x63; x61; x73; x65; x20; x22; x61; x6e; x79; x22] (* case "any" *);
+     [x69; x66; x20; x21; x6f; x6b] (* if !ok *);
+     [x72; x65; x74; x75; x72; x6e; x20; x22; x22; x2c; x65; x72; x72; x6f; x72; x73; x2e; x4e; x65; x77; x28; x22; x69; x6e; x76; x61; x6c; x69; x64; x20; x71; x75; x65; x72; x79; x20; x70; x61; x72; x61; x6d; x65; x74; x65; x72; x22; x29] (* return "",errors.New("invalid query parameter") *);
+     [x72; x65; x74; x75; x72; x6e; x20; x68; x6f; x73; x74; x73; x5b; x30; x5d; x2c; x6e; x69; x6c] (* return hosts[0],nil *);
+     [x64; x65; x66; x61; x75; x6c; x74] (* default *);
+     [x72; x65; x74; x75; x72; x6e; x20; x68; x2e; x73; x65; x6c; x65; x63; x74; x52; x61; x6e; x64; x6f; x6d; x48; x6f; x73; x74; x28; x29; x2c; x6e; x69; x6c] (* return h.selectRandomHost(),nil *)] /\
+  DECISIONS_HandleDownload =
+    [[x69; x66; x20; x21; x69; x64; x2e; x41; x75; x74; x68; x65; x6e; x74; x69; x63; x61; x74; x65; x64; x28; x29] (* if !id.Authenticated() *);
+     [x72; x65; x74; x75; x72; x6e] (* return *);
+     [x69; x66; x20; x65; x72; x72; x21; x3d; x6e; x69; x6c] (* if err!=nil *);
+     [x72; x65; x74; x75; x72; x6e] (* return *);
+     [x69; x66; x20; x6f; x70; x74; x73; x2e; x53; x70; x6c; x69; x74; x55; x73; x65; x72; x44; x6f; x6d; x61; x69; x6e] (* if opts.SplitUserDomain *);
+     [x69; x66; x20; x6c; x65; x6e; x28; x63; x72; x65; x64; x73; x29; x3e; x31] (* if len(creds)>1 *);
+     [x69; x66; x20; x6f; x70; x74; x73; x2e; x55; x73; x65; x72; x6e; x61; x6d; x65; x54; x65; x6d; x70; x6c; x61; x74; x65; x21; x3d; x22; x22] (* if opts.UsernameTemplate!="" *);
+     [x69; x66; x20; x68; x2e; x72; x64; x70; x4f; x70; x74; x73; x2e; x55; x73; x65; x72; x6e; x61; x6d; x65; x54; x65; x6d; x70; x6c; x61; x74; x65; x3d; x3d; x72; x65; x6e; x64; x65; x72] (* if h.rdpOpts.UsernameTemplate==render *);
+     [x72; x65; x74; x75; x72; x6e] (* return *);
+     [x69; x66; x20; x65; x72; x72; x21; x3d; x6e; x69; x6c] (* if err!=nil *);
+     [x72; x65; x74; x75; x72; x6e] (* return *);
+     [x69; x66; x20; x68; x2e; x65; x6e; x61; x62; x6c; x65; x55; x73; x65; x72; x54; x6f; x6b; x65; x6e] (* if h.enableUserToken *);
+     [x69; x66; x20; x65; x72; x72; x21; x3d; x6e; x69; x6c] (* if err!=nil *);
+     [x72; x65; x74; x75; x72; x6e] (* return *);
+     [x69; x66; x20; x65; x72; x72; x21; x3d; x6e; x69; x6c] (* if err!=nil *);
+     [x72; x65; x74; x75; x72; x6e] (* return *);
+     [x69; x66; x20; x68; x2e; x72; x64; x70; x44; x65; x66; x61; x75; x6c; x74; x73; x3d; x3d; x22; x22] (* if h.rdpDefaults=="" *);
+     [x69; x66; x20; x65; x72; x72; x21; x3d; x6e; x69; x6c] (* if err!=nil *);
+     [x72; x65; x74; x75; x72; x6e] (* return *);
+     [x69; x66; x20; x21; x68; x2e; x72; x64; x70; x4f; x70; x74; x73; x2e; x4e; x6f; x55; x73; x65; x72; x6e; x61; x6d; x65] (* if !h.rdpOpts.NoUsername *);
+     [x69; x66; x20; x64; x6f; x6d; x61; x69; x6e; x21; x3d; x22; x22] (* if domain!="" *)] /\
+  DECISIONS_QueryInfo =
+    [[x69; x66; x20; x65; x72; x72; x21; x3d; x6e; x69; x6c] (* if err!=nil *);
+     [x72; x65; x74; x75; x72; x6e; x20; x22; x22; x2c; x65; x72; x72; x6f; x72; x73; x2e; x4e; x65; x77; x28; x22; x63; x61; x6e; x6e; x6f; x74; x20; x67; x65; x74; x20; x74; x6f; x6b; x65; x6e; x22; x29] (* return "",errors.New("cannot get token") *);
+     [x69; x66; x20; x65; x72; x72; x3d; x74; x6f; x6b; x65; x6e; x2e; x43; x6c; x61; x69; x6d; x73; x28; x51; x75; x65; x72; x79; x53; x69; x67; x6e; x69; x6e; x67; x4b; x65; x79; x2c; x26; x73; x74; x61; x6e; x64; x61; x72; x64; x29; x3b; x20; x65; x72; x72; x21; x3d; x6e; x69; x6c] (* if err=token.Claims(QuerySigningKey,&standard); err!=nil *);
+     [x72; x65; x74; x75; x72; x6e; x20; x22; x22; x2c; x65; x72; x72; x6f; x72; x73; x2e; x4e; x65; x77; x28; x22; x63; x61; x6e; x6e; x6f; x74; x20; x76; x65; x72; x69; x66; x79; x20; x73; x69; x67; x6e; x61; x74; x75; x72; x65; x22; x29] (* return "",errors.New("cannot verify signature") *);
+     [x69; x66; x20; x65; x72; x72; x21; x3d; x6e; x69; x6c] (* if err!=nil *);
+     [x72; x65; x74; x75; x72; x6e; x20; x22; x22; x2c; x66; x6d; x74; x2e; x45; x72; x72; x6f; x72; x66; x28; x22; x74; x6f; x6b; x65; x6e; x20; x76; x61; x6c; x69; x64; x61; x74; x69; x6f; x6e; x20; x66; x61; x69; x6c; x65; x64; x20; x64; x75; x65; x20; x74; x6f; x20; x25; x73; x22; x2c; x65; x72; x72; x29] (* return "",fmt.Errorf("token validation failed due to %s",err) *);
+     [x72; x65; x74; x75; x72; x6e; x20; x73; x74; x61; x6e; x64; x61; x72; x64; x2e; x53; x75; x62; x6a; x65; x63; x74; x2c; x6e; x69; x6c] (* return standard.Subject,nil *)].
+Proof. vm_compute. repeat split; reflexivity. Qed.
+Print Assumptions C12_decisions_as_transcribed.
